@@ -25,6 +25,8 @@ FailsRead(e) ==
       Strip(w) == SubSeq(w, 3, Len(w))
   IN {e.p \o "." \o e.fmt \o ".read_" \o w : w \in {"shape", "cats", "words", "pos", "attrs", "labels", "symbols", "heads"} \cap {x \in {"shape", "cats", "words", "pos", "attrs", "labels", "symbols", "heads"} : ("R." \o x) \in fs}}
      \cup {"C12." \o e.fmt \o "." \o w : w \in {x \in {"derivable_node_without_rule_label", "head_not_from_rule", "underivable_node_not_unknown"} : ("L." \o x) \in fs}}
+     \* C15 states the rule labels of the C&C XML round trip as well: a derivable binary node must come back with the label of a rule deriving it
+     \cup (IF e.p = "C15" /\ e.fmt = "xml" /\ "L.derivable_node_without_rule_label" \in fs THEN {"C15.xml.read_labels"} ELSE {})
 FailsNumbering(e) == IF e.got = e.expect THEN {} ELSE {e.p \o "." \o e.fmt \o ".numbering"}
 
 Fails(e) == CASE e.e = "tree" -> FailsTree(e)
